@@ -18,9 +18,15 @@ func vh_C02_ordering() {
 	k := vK()
 	cap := &vCapture{}
 	pm := newPktMgr(cap)
+	// request ids are the client's business: arbitrary, not necessarily distinct
+	// (added after seeded change C02-e); the responses are told apart by their
+	// status codes 2, 3, 4
 	var reqs []orderedRequest
+	ids := make([]uint32, k)
+	codes := []error{ErrSSHFxNoSuchFile, ErrSSHFxPermissionDenied, ErrSSHFxFailure}
 	for i := 0; i < k; i++ {
-		reqs = append(reqs, pm.newOrderedRequest(&sshFxpStatPacket{ID: uint32(100 + i), Path: "/"}))
+		ids[i] = vNondetU32()
+		reqs = append(reqs, pm.newOrderedRequest(&sshFxpStatPacket{ID: ids[i], Path: "/"}))
 	}
 	// completion order: a permutation chosen by the environment
 	used := make([]bool, k)
@@ -46,12 +52,13 @@ func vh_C02_ordering() {
 			pm.requests <- reqs[next]
 			next++
 		}
-		pm.responses <- pm.newOrderedResponse(statusFromError(reqs[j].id(), nil), reqs[j].orderID())
+		pm.responses <- pm.newOrderedResponse(statusFromError(reqs[j].id(), codes[j]), reqs[j].orderID())
 	}
 	vQuiesce()
 	vAssert(len(cap.pkts) == k, "every request answered exactly once")
 	for i := 0; i < len(cap.pkts) && i < k; i++ {
-		vAssert(vRespID(cap.pkts[i]) == uint32(100+i), "responses leave in arrival order")
+		code, _ := vStatusCode(cap.pkts[i])
+		vAssert(vRespID(cap.pkts[i]) == ids[i] && code == uint32(2+i), "responses leave in arrival order")
 	}
 	vAssert(len(pm.incoming) == 0 && len(pm.outgoing) == 0, "nothing left queued")
 	close(pm.fini)
